@@ -3,6 +3,7 @@
   Model: Signac.Cache (workspace listing + cache file + session cache of the live Project).
 -/
 import Signac.Proofs.CacheRun
+import Signac.Proofs.ChunksAll
 namespace Signac.C08
 open Signac Signac.Ws Signac.Cache
 
@@ -64,5 +65,27 @@ example :
        .remove (.obj [("n", .int 0)]), .rekey (.obj [("n", .int 1)]) "n" (.int 2), .session]
     (s.cacheFile.map List.length) = some 2 ∧ s.ws.length = 1 ∧
     (updateCache (fun v => canonText v) s).2.1 = some 1 := by decide
+
+/-! ### update_cache reads every new id: the chunking of `_update_in_memory_cache` -/
+
+/-- Whatever the number of ids to read, the chunks handed to the thread pool concatenate to the
+    list of ids: none is dropped, duplicated or re-ordered, and chunking never raises. -/
+theorem chunks_cover_all_ids (ids : List String) :
+    ∃ cs, Chunks.splitChunks ids (Chunks.numChunks ids.length) = some cs ∧ cs.flatten = ids ∧
+      cs.length = Chunks.numChunks ids.length := by
+  cases h : Chunks.splitChunks ids (Chunks.numChunks ids.length) with
+  | none =>
+    have := (Chunks.splitChunks_error_iff ids _).mp h
+    have := Chunks.numChunks_pos ids.length
+    omega
+  | some cs => exact ⟨cs, rfl, Chunks.splitChunks_flatten ids _ cs h, Chunks.splitChunks_length ids _ cs h⟩
+
+/-- ... for every chunk count the helper accepts, not only the caller's choice. -/
+theorem chunks_cover (ids : List String) (k : Nat) (cs : List (List String))
+    (h : Chunks.splitChunks ids k = some cs) : cs.flatten = ids ∧ cs.length = k :=
+  ⟨Chunks.splitChunks_flatten ids k cs h, Chunks.splitChunks_length ids k cs h⟩
+
+example : Chunks.splitChunks [1, 2, 3, 4, 5, 6, 7] 3 = some [[1, 2], [3, 4], [5, 6, 7]] := by decide
+example : Chunks.numChunks 2001 = 2 ∧ Chunks.numChunks 1999 = 1 ∧ Chunks.numChunks 250000 = 100 := by decide
 
 end Signac.C08
